@@ -32,8 +32,8 @@ ASSUMPTIONS = ['reference factor table (mc/ref/polys.py: sieve by schoolbook mul
 DOMAINS = {
     'quick': {('binary', 2): 12, ('generic', 2): 10, ('generic', 3): 7, ('generic', 5): 4,
               ('generic', 7): 4, ('generic', 11): 2, ('generic', 13): 2},
-    'thorough': {('binary', 2): 15, ('generic', 2): 13, ('generic', 3): 9, ('generic', 5): 6,
-                 ('generic', 7): 5, ('generic', 11): 3, ('generic', 13): 3, ('generic', 17): 3,
+    'thorough': {('binary', 2): 16, ('generic', 2): 14, ('generic', 3): 10, ('generic', 5): 6,
+                 ('generic', 7): 5, ('generic', 11): 4, ('generic', 13): 3, ('generic', 17): 3,
                  ('generic', 31): 2},
 }
 SMALL_PRIMES = [2, 3, 5, 7, 11, 13, 17, 19, 23, 29, 31, 37, 41, 43, 47, 53, 59, 61, 67, 71, 73, 79, 83, 89, 97,
@@ -43,9 +43,10 @@ BIG_PRIMES = [65537, 2**31 - 1, 2**61 - 1]      # degree 1 only (and degree 2 fo
 MANIFEST = dict(
     level='exploration',
     technique='bounded-exhaustive enumeration of all polynomials of bounded degree against a brute-force factor table',
-    text='Every polynomial of degree <= 12 (15 thorough) over GF(2) in the integer representation, <= 10 (13) over GF(2) '
-         'in the generic list representation, <= 7 (9) over GF(3), <= 4 (6) over GF(5), <= 4 (5) over GF(7), <= 2 (3) over '
-         'GF(11), GF(13) (thorough also degree <= 3 over GF(17), <= 2 over GF(31)): is_irreducible equals the factor table '
+    text='Every polynomial of degree <= 12 (16 thorough) over GF(2) in the integer representation, <= 10 (14) over GF(2) '
+         'in the generic list representation, <= 7 (10) over GF(3), <= 4 (6) over GF(5), <= 4 (5) over GF(7), <= 2 (4) over '
+         'GF(11), <= 2 (3) over GF(13) (thorough also degree <= 3 over GF(17), <= 2 over GF(31)): is_irreducible (argument given '
+         'as polynomial, int and list) equals the factor table '
          '(irreducible iff degree >= 1 and not a product of two polynomials of degree >= 1); next_irreducible(a) equals '
          'the smallest irreducible above a in the integer order for every a one degree below the table bound; '
          'finfields.GF(a) returns a field with modulus a iff a is irreducible and raises otherwise; '
@@ -63,6 +64,12 @@ MANIFEST = dict(
 class CPart(Part):
     """Part that also remembers, per violation key, the smallest failing example (so that the reported
     example does not depend on the order in which worker processes finish)."""
+
+    def sample(self, s):
+        pool = self.notes.setdefault('sample_pool', [])
+        if len(pool) < 6:
+            pool.append(s)
+            self.samples.append(s)
 
     def violation(self, key, what, detail):
         super().violation(key, what, detail)
@@ -85,6 +92,8 @@ def coverage_extra(tier, seed, total):
     for v in total.violations:
         if v['key'] in best:
             _, v['what'], v['detail'] = best[v['key']]
+    pool = total.notes.pop('sample_pool', [])
+    total.samples = sorted(pool, key=lambda x: json.dumps(x, sort_keys=True, default=str))[:6]
     return {}
 
 
@@ -392,6 +401,7 @@ def replay(case):
     finally:
         watchdog(False)
     part.notes.pop('examples', None)
+    part.notes.pop('sample_pool', None)
     return part
 
 
